@@ -16,7 +16,14 @@ Tie:   (a) direct drive: real Channel objects registered in a real (not started)
            (no common lock) or is observed waiting for the channel lock -- no timing involved;
        (c) real loopback client/server transports, several concurrent channels, zlib, re-keys, random chunking,
            both directions, a mid-transfer combine switch, exit status;
-       (d) Channel.sendall's chunking against `run_sendall`.
+       (d) Channel.sendall's chunking against `run_sendall`, and sendall against a finite window and small maximum
+           packet sizes against `run_sendall_win` (payloads, unsent rest, final window; oracle: window debit ==
+           bytes put on the wire); two quick-tier loopback transfers with ONE sendall far larger than the window
+           (64 KiB window / >= 300 KiB, default 2 MiB window / >= 512 KiB) under a progress watchdog;
+       (e) exit status at statement granularity: AST check that _handle_request stores exit_status before it sets
+           status_event, and two deterministic two-thread schedules (a recv_exit_status() reader released right after
+           status_event.set(), and one released while the handler is still reading the status from the message)
+           compared with `run_exit`.
 Oracle: per-channel stream equality stated directly (reads + remainder == delivered payloads, per stream).
 """
 import ast
@@ -38,7 +45,9 @@ LEVEL_TEXT = ("Machine-checked proof (Coq, closed under the global context), for
               "channel id, in wire order; with combining, for any sequence of switches, stdout is an order-preserving "
               "merge of the DATA bytes and the stderr bytes not read separately (nothing lost, nothing duplicated, "
               "each stream's order kept; buffered stderr data is moved at the switch; the stderr buffer stays empty "
-              "while combining is on); the reported exit status is the (last) one sent; messages for ids that are not "
+              "while combining is on); the reported exit status is the (last) one sent -- also for a reader thread "
+              "interleaved in any way with the handler's two statements (store, then set); sendall debits the window "
+              "by exactly the bytes it puts on the wire; messages for ids that are not "
               "open reach no channel. The model is tied to channel.py / transport.py by a differential run of the "
               "model's own definitions (vm_compute) against real Channel objects driven through the run() loop's own "
               "dispatch statements, by deterministic two-thread schedules on set_combine_stderr, and by real loopback "
@@ -675,6 +684,205 @@ def sendall_cases(ctx, n):
                      impl=cases[i][1])
 
 
+def sendall_window_cases(ctx, n, fixed=None):
+    """Channel.sendall against a finite window and a small maximum packet size (nothing credits the window back):
+    payloads, unsent rest and the final window are compared with `run_sendall_win`; the oracle is the accounting
+    identity window_before - window_after == bytes handed to the transport."""
+    rng = ctx.rng
+    cases = []
+    for j in range(len(fixed) if fixed is not None else n):
+        L = rng.choice([0, 1, 5, 40, 100, rng.randrange(0, 300)])
+        s = bytes(rng.randrange(256) for _ in range(L))
+        w = rng.choice([1, 2, 10, 64, L, max(1, L // 2), L + 7, 2 * L + 1, rng.randrange(1, 700)])
+        w = max(1, w)
+        pkt = 64 + rng.choice([1, 2, 3, 10, 33, 100, 1000, 2 ** 15 - 64])
+        if fixed is not None:
+            s, w, pkt = fixed[j]
+            L = len(s)
+        ch = _fresh_channel()
+        ch.out_max_packet_size = pkt
+        ch.out_window_size = w
+        ch.settimeout(0.0)
+        payloads = []
+
+        def rec(m, payloads=payloads):
+            mm = type(m)(m.asbytes())
+            mm.get_byte()
+            mm.get_int()
+            payloads.append(mm.get_binary())
+
+        ch.transport._send_user_message = rec
+
+        def go(ch=ch, s=s):
+            try:
+                ch.sendall(s)
+                return "done"
+            except socket.timeout:
+                return "window-exhausted"
+
+        kind, val = with_watchdog(go, 10.0)
+        final = ch.out_window_size
+        ch.closed = True
+        case = {"s": s, "window": w, "max_packet": pkt}
+        if kind != "ok":
+            ctx.fail("sendall-hang", "Channel.sendall neither finished nor reported an exhausted window", case=case,
+                     expected="done or socket.timeout", observed=repr(val))
+            continue
+        sent = b"".join(payloads)
+        if sent != s[:len(sent)] or (val == "done" and sent != s):
+            ctx.fail("sendall-chunking", "the DATA payloads emitted by sendall are not a prefix of the bytes written",
+                     case=case, expected=s, observed=sent)
+        if w - final != len(sent) or (val == "window-exhausted" and len(sent) < min(w, len(s))):
+            ctx.fail("send-window-leak", "the send window is debited by more than the bytes put on the wire: the "
+                     "difference is never credited back, so a large send stalls and the data behind it never arrives",
+                     case=case, expected={"window_after": w - len(sent), "sent": min(w, len(s))},
+                     observed={"window_after": final, "sent": len(sent), "outcome": val})
+        canon = []
+        for q in payloads:
+            canon += [len(q)] + list(q)
+        canon += [-1] + list(s[len(sent):]) + [-2, final]
+        ctx.count(("sendall-win", s, w, pkt), nontrivial=L > 0, kind="sendall-window")
+        cases.append(((w, pkt, list(s)), canon, case))
+    bad = model_mm(ctx, "run_sendall_win", "(Z * Z * list Z)", [(coq(c), e) for c, e, _ in cases])
+    for i in bad[:2]:
+        ctx.disagree("Channel.sendall / _wait_for_send_window differ from the model (sizes or window debit)",
+                     case=cases[i][2], impl=cases[i][1])
+
+
+# ----------------------------------------------------------------------------------------------
+# exit status: statement order and two-thread schedules
+
+
+def exit_statement_order():
+    """Order of `self.exit_status = ...` and `self.status_event.set()` in _handle_request's exit-status branch."""
+    import paramiko.channel as C
+    tree = ast.parse(textwrap.dedent(inspect.getsource(C.Channel._handle_request)))
+    for node in ast.walk(tree):
+        if isinstance(node, ast.If) and ast.unparse(node.test) in ("key == 'exit-status'", 'key == "exit-status"'):
+            store = setev = None
+            for i, st in enumerate(node.body):
+                txt = ast.unparse(st)
+                if isinstance(st, ast.Assign) and any(ast.unparse(t) == "self.exit_status" for t in st.targets):
+                    store = i if store is None else store
+                if txt.replace(" ", "") == "self.status_event.set()":
+                    setev = i if setev is None else setev
+            if store is None or setev is None:
+                return None
+            return "store-first" if store < setev else "set-first"
+    return None
+
+
+class SwitchEvent(threading.Event):
+    """status_event with a switch point right after set() and a report when a thread starts waiting."""
+
+    def __init__(self):
+        super().__init__()
+        self.after_set = None
+        self.waiting = threading.Event()
+
+    def set(self):
+        super().set()
+        h, self.after_set = self.after_set, None
+        if h is not None:
+            h()
+
+    def wait(self, timeout=None):
+        if not self.is_set():
+            self.waiting.set()
+        return super().wait(timeout)
+
+
+def _exit_message(n):
+    from paramiko.message import Message
+    m = Message()
+    m.add_string("exit-status")
+    m.add_boolean(False)
+    m.add_int(n)
+    return Message(m.asbytes())
+
+
+def schedule_exit(n, point):
+    """Transport thread handles exit-status n; a reader's recv_exit_status() is released at `point`:
+    'after-set' (right after status_event.set()) or 'at-read' (while the handler reads the status from the message,
+    i.e. before it stores it).  Returns (value the reader got or None, reader finished inside the handler?)."""
+    ch = _fresh_channel()
+    ev = SwitchEvent()
+    ch.status_event = ev
+    msg = _exit_message(n)
+    st = {}
+
+    def release_reader():
+        if "t" in st:
+            return
+        box = {}
+        done = threading.Event()
+
+        def body():
+            try:
+                box["v"] = ch.recv_exit_status()
+            except BaseException as e:  # noqa
+                box["v"] = repr(e)
+            finally:
+                done.set()
+
+        t = threading.Thread(target=body, daemon=True)
+        ev.waiting.clear()
+        t.start()
+        deadline = time.time() + 20
+        while time.time() < deadline and not (done.is_set() or ev.waiting.is_set()):
+            done.wait(0.005)
+        st.update(t=t, done=done, box=box, inside=done.is_set())
+
+    if point == "after-set":
+        ev.after_set = release_reader
+    else:
+        orig = msg.get_int
+
+        def get_int_hook():
+            release_reader()
+            return orig()
+
+        msg.get_int = get_int_hook
+    ch._handle_request(msg)
+    if "t" not in st:
+        release_reader()
+    st["t"].join(20)
+    ch.closed = True
+    return st["box"].get("v"), st["inside"]
+
+
+def exit_status_runs(ctx, n):
+    rng = ctx.rng
+    order = exit_statement_order()
+    if order != "store-first":
+        ctx.disagree("_handle_request('exit-status'): the model's handler program is [store exit_status; set "
+                     "status_event]; the source has %r" % (order,), case={"ast": order}, model="store-first",
+                     impl=order)
+    cases = []
+    vals = [0, 1, 23, 255, 2 ** 31, 2 ** 32 - 1] + [rng.randrange(0, 2 ** 32) for _ in range(n)]
+    for v in vals[:max(2, n)]:
+        for point in ("after-set", "at-read"):
+            got, inside = schedule_exit(v, point)
+            ctx.count(("exit-sched", v, point), kind="schedule-exit-" + point)
+            case = {"exit_schedule": point, "status_sent": v}
+            if got != v:
+                ctx.fail("exit-status-set-before-store",
+                         "a thread in recv_exit_status() released while the transport thread handles exit-status "
+                         "reports a value that is not the status the peer sent (status_event is set before "
+                         "exit_status is stored)", case=case, expected=v, observed=got)
+            # the schedule that took place, in terms of the model's programs [XStore; XSet] / [RWait; RRead]
+            if point == "at-read" and inside:
+                sched = [False, False, True, True]
+            else:
+                sched = [True, True, False, False]
+            exp = [1, got] if isinstance(got, int) else [0]
+            cases.append(((-1, v, sched), exp, case))
+    bad = model_mm(ctx, "run_exit", "(Z * Z * list bool)", [(coq(c), e) for c, e, _ in cases])
+    for i in bad[:2]:
+        ctx.disagree("scheduled exit-status handler / recv_exit_status run differs from the statement-level model",
+                     case=cases[i][2], impl=cases[i][1])
+
+
 # ----------------------------------------------------------------------------------------------
 # loopback transfers
 
@@ -689,14 +897,32 @@ def _chunks(rng, data, sizes):
     return out
 
 
-def loopback(ctx, nchan, total, label):
+def big_plan(rng, window, n_out, n_err):
+    """One channel whose stdout is written with a SINGLE sendall much larger than the window."""
+    return [{
+        "stdout": bytes(b & 0x7F for b in rng.randbytes(n_out)),
+        "stderr": bytes(b | 0x80 for b in rng.randbytes(n_err)),
+        "stdin": bytes(rng.randbytes(rng.choice([0, 5000]))),
+        "status": rng.choice([0, 7, 255, 4242]),
+        "combine": "never",
+        "wsizes": [10 ** 9], "force_sendall": True, "stdout_first": True,
+        "rsizes": rng.choice([[4096], [65536], [1000, 100000]]),
+        "wseed": rng.getrandbits(32), "rseed": rng.getrandbits(32),
+    }]
+
+
+STALL = 12.0     # seconds without a single byte arriving anywhere before a transfer counts as stalled
+
+
+def loopback(ctx, nchan, total, label, plan=None, window=None):
     """Real client/server transports; returns list of problems (dicts)."""
     import paramiko
     from _loop import LoopSocket
     rng = ctx.rng
-    plan = []
+    given = plan is not None
+    plan = plan if given else []
     per = max(1, total // max(1, nchan))
-    for i in range(nchan):
+    for i in range(0 if given else nchan):
         n_out = rng.choice([0, 1, per // 2, per * 2 // 3, rng.randrange(0, per + 1)])
         n_err = rng.choice([0, 1, per // 4, per // 3, rng.randrange(0, per // 2 + 1)])
         n_in = rng.choice([0, 7, per // 8, rng.randrange(0, per // 4 + 1)])
@@ -729,7 +955,7 @@ def loopback(ctx, nchan, total, label):
     sa, sb = LoopSocket(), LoopSocket()
     sa.link(sb)
     # small windows make senders wait for credit and receivers send window adjusts
-    win = rng.choice([65536, 131072, 2 ** 21])
+    win = window if window is not None else rng.choice([65536, 131072, 2 ** 21])
     tc = paramiko.Transport(sa, default_window_size=win, default_max_packet_size=32768)
     ts = paramiko.Transport(sb, default_window_size=win, default_max_packet_size=32768)
     tc.set_log_channel(LOGNAME)
@@ -774,12 +1000,12 @@ def loopback(ctx, nchan, total, label):
             # random merge of the two streams, each in its own order
             seq = []
             while items or errs:
-                if items and (not errs or r.random() < 0.5):
+                if items and (not errs or p.get("stdout_first") or r.random() < 0.5):
                     seq.append(items.pop(0))
                 else:
                     seq.append(errs.pop(0))
             for k, x in seq:
-                if r.random() < 0.3:
+                if not p.get("force_sendall") and r.random() < 0.3:
                     # plain send(): partial writes handled by the caller
                     while x:
                         n = s.send(x) if k == "o" else s.send_stderr(x)
@@ -848,12 +1074,29 @@ def loopback(ctx, nchan, total, label):
             time.sleep(0.05)
             (tc if k % 2 == 0 else ts).renegotiate_keys()
         deadline = time.time() + (600 if ctx.thorough else 240)
-        for t in threads:
-            t.join(max(0.1, deadline - time.time()))
-        if any(t.is_alive() for t in threads):
-            problems.append({"key": "loopback-stalled", "what": "a loopback transfer did not finish", "chan": -1,
-                             "expected": "all transfers complete", "observed": "%d threads still running; errors=%r" % (
-                                 sum(t.is_alive() for t in threads), errors[:3])})
+        # progress watchdog: a transfer is stalled when no byte arrives anywhere for STALL seconds
+        seen_bytes, last = -1, time.time()
+        stalled = False
+        while any(t.is_alive() for t in threads):
+            now_bytes = sum(len(r_["out"]) + len(r_["err"]) + len(r_["sin"]) for r_ in res)
+            if now_bytes != seen_bytes:
+                seen_bytes, last = now_bytes, time.time()
+            if time.time() - last > STALL or time.time() > deadline:
+                stalled = True
+                break
+            time.sleep(0.05)
+        if stalled:
+            got = [{"stdout": len(bytes(x for x in r_["out"] if x < 128)),
+                    "stderr": len(r_["err"]) + len(bytes(x for x in r_["out"] if x >= 128)),
+                    "stdin": len(r_["sin"])} for r_ in res]
+            want = [{"stdout": len(p_["stdout"]), "stderr": len(p_["stderr"]), "stdin": len(p_["stdin"])}
+                    for p_ in plan]
+            problems.append({"key": "loopback-stalled", "chan": -1,
+                             "what": "end-to-end: a transfer stalled -- bytes the peer wrote (and the data / exit "
+                                     "status behind them) never arrive",
+                             "expected": want, "observed": {"received": got, "window": win,
+                                                            "threads_running": sum(t.is_alive() for t in threads),
+                                                            "errors": errors[:3]}})
         else:
             for i, c in enumerate(cch):
                 kind, v = with_watchdog(c.recv_exit_status, 30.0)
@@ -901,16 +1144,24 @@ def loopback(ctx, nchan, total, label):
     return problems, plan, comp
 
 
-def run_loopback(ctx, nchan, total, label):
+def run_loopback(ctx, nchan, total, label, big=None):
     for attempt in (0, 1):
-        problems, plan, comp = loopback(ctx, nchan, total, label)
+        if big is not None:
+            window, n_out, n_err = big
+            problems, plan, comp = loopback(ctx, 1, 0, label, plan=big_plan(ctx.rng, window, n_out, n_err),
+                                            window=window)
+        else:
+            problems, plan, comp = loopback(ctx, nchan, total, label)
         timing = [p for p in problems if p["key"] in ("loopback-stalled", "loopback-error")]
         if timing and attempt == 0:
             ctx.notes.append("loopback %s: %s on the first attempt; retried once" % (label, timing[0]["key"]))
             continue
         break
     summary = [{"stdout": len(p["stdout"]), "stderr": len(p["stderr"]), "stdin": len(p["stdin"]),
-                "combine": p["combine"], "status": p["status"]} for p in plan]
+                "combine": p["combine"], "status": p["status"],
+                "single_sendall": bool(p.get("force_sendall"))} for p in plan]
+    if big is not None:
+        summary[0]["window"] = big[0]
     ctx.count(("loopback", label, repr(summary)), kind="loopback-%s" % label)
     for p in plan:
         ctx.count(("loopback-chan", label, p["wseed"], p["rseed"]),
@@ -959,9 +1210,15 @@ def run(ctx):
     ctx.log("direct drive done (%.1fs)" % (time.time() - t0))
     scheduled_runs(ctx, 6 * scale)
     sendall_cases(ctx, 60 * scale)
+    sendall_window_cases(ctx, 80 * scale)
+    exit_status_runs(ctx, 6 * scale)
     t0 = time.time()
     for k in range(2):
         run_loopback(ctx, 3, 48 * 1024, "small%d" % k)
+    # one sendall several times larger than the window (sender must wait for credit again and again), and
+    # one large sendall under the default window (credit threshold = window/10 is far away)
+    run_loopback(ctx, 1, 0, "bigsend-64k", big=(65536, 300 * 1024 + ctx.rng.randrange(0, 100000), 40 * 1024))
+    run_loopback(ctx, 1, 0, "bigsend-2m", big=(2 ** 21, 512 * 1024 + ctx.rng.randrange(0, 100000), 96 * 1024))
     if ctx.thorough:
         for k in range(8):
             run_loopback(ctx, 8, 512 * 1024, "large%d" % k)
@@ -994,6 +1251,16 @@ def replay(ctx, rep):
         bad = model_mm(ctx, "run_case", "(list Z * list Z * list Z * list op)", [(coq_case(c), canon)])
         if bad:
             ctx.disagree("replayed history differs from the model", case=case, impl=canon)
+    elif "exit_schedule" in case:
+        ctx.count(("replay-exit", case["status_sent"]))
+        got, _ = schedule_exit(case["status_sent"], case["exit_schedule"])
+        if got != case["status_sent"]:
+            ctx.fail(rep["key"], rep["what"], case=case, expected=case["status_sent"], observed=got)
+    elif "max_packet" in case:
+        sendall_window_cases(ctx, 1, fixed=[(bytes.fromhex(case["s"]["hex"]), case["window"], case["max_packet"])])
+    elif str(case.get("loopback", "")).startswith("bigsend"):
+        ch0 = case["channels"][0]
+        run_loopback(ctx, 1, 0, case["loopback"], big=(ch0["window"], ch0["stdout"], ch0["stderr"]))
     elif "schedule" in case:
         a = bytes.fromhex(case["stderr_buffered"]["hex"])
         b = bytes.fromhex(case["stderr_arriving"]["hex"])
